@@ -219,15 +219,31 @@ def effect_blocks(ctx, body, code=None, variant=None, calls=()):
     return res
 
 
-def guard_edges(ctx, body, relpred, stop_named=False):
-    """(Branch, truth, target) for every branch edge on which a relation satisfying relpred(op,a,b) holds"""
+OFFSETS_SEEN = []
+
+
+def guard_edges(ctx, body, relpred, stop_named=False, offsets=()):
+    """(Branch, truth, target) for every branch edge on which a relation satisfying relpred(op,a,b) holds.
+    A relation whose operands carry literal arithmetic offsets (`x + 1`, `x.saturating_sub(2)`) other than the
+    ones listed in `offsets` is NOT accepted as the stated relation (off-by-N edits keep every anchor but change
+    the bound)."""
     out = []
     for br in branches(ctx.facts, body, stop_named):
         for truth in (True, False):
             rel = relation_on(br.desc, truth)
             if rel is not None and relpred(*rel):
+                offs = D.const_offsets(rel[1]) | D.const_offsets(rel[2])
+                extra = offs - set(offsets)
+                if extra:
+                    OFFSETS_SEEN.append((body.short, br.where(), sorted(extra)))
+                    continue
                 out.append((br, truth, br.target(1 if truth else 0)))
     return out
+
+
+def _offset_note(body):
+    xs = [(w, e) for f, w, e in OFFSETS_SEEN if f == body.short]
+    return '' if not xs else ' (a branch at %s has the relation but with literal offset(s) %s on an operand — bound shifted)' % (xs[-1][0], xs[-1][1])
 
 
 def bool_edges(ctx, body, pred, stop_named=False):
@@ -247,10 +263,10 @@ def discr_edges(ctx, body, pred, stop_named=False):
     return [br for br in branches(ctx.facts, body, stop_named) if br.desc[0] == 'discr' and pred(br.desc[1])]
 
 
-def guard_error(ctx, rule, instance, body, relpred, code=None, variant=None, calls=(), protect=(), what='', floor=1):
+def guard_error(ctx, rule, instance, body, relpred, code=None, variant=None, calls=(), protect=(), what='', floor=1, offsets=()):
     """P6: on every edge where the violating relation holds, every path reaches the effect before any protected
     block and before a normal return."""
-    edges = guard_edges(ctx, body, relpred)
+    edges = guard_edges(ctx, body, relpred, offsets=offsets)
     eff = effect_blocks(ctx, body, code, variant, calls)
     n = 0
     for br, truth, tgt in edges:
@@ -262,16 +278,16 @@ def guard_error(ctx, rule, instance, body, relpred, code=None, variant=None, cal
         else:
             ctx.bad(rule, instance, body, br.where(), '%s: on the violating edge a path avoids %s: %s' % (what, code or variant or calls, fmt_path(body, p)))
     if n < floor:
-        ctx.bad(rule, instance + '/guard_missing', body, body.where(), '%s: no branch with the required relation found (guard removed or relation changed)' % what)
+        ctx.bad(rule, instance + '/guard_missing', body, body.where(), '%s: no branch with the required relation found (guard removed or relation changed)' % what + _offset_note(body))
     return edges
 
 
-def guard_protects(ctx, rule, instance, body, relpred, sites, what='', need_dom=True, stop_named=False):
+def guard_protects(ctx, rule, instance, body, relpred, sites, what='', need_dom=True, stop_named=False, offsets=()):
     """P4+edge: every protected site (block) has a guard with the stated relation that dominates it and from whose
     violating edge it is unreachable without re-evaluating the guard.  (need_dom is kept for call compatibility.)"""
-    edges = guard_edges(ctx, body, relpred, stop_named)
+    edges = guard_edges(ctx, body, relpred, stop_named, offsets=offsets)
     if not edges:
-        ctx.bad(rule, instance + '/guard_missing', body, body.where(), '%s: no branch with the required relation found' % what)
+        ctx.bad(rule, instance + '/guard_missing', body, body.where(), '%s: no branch with the required relation found' % what + _offset_note(body))
         return
     sites = [s for s in sites if s in body.live_blocks()]
     bad = []
